@@ -248,6 +248,8 @@ def gen_query(rng, sim, pool):
     re-used from the pool so that the same query is asked again after the object has changed"""
     w = sim.w
     t = rng.random()
+    if t < 0.04:
+        return {'k': 'asarray'}
     if t < 0.42:
         qs = [q for q in pool if q['k'] == 'integrate']
         if qs and rng.random() < 0.6:
@@ -492,8 +494,6 @@ def gen_seq(rng, maxlen):
             budget -= 1
         ops.append(o)
         apply_sim(sim, o)
-        if o.get('copy'):
-            break       # the copy is compared with the model's outcome; the object itself does not move
     c = {'op': 'seq', 'w': fs(w), 'v': fs(v), 'ops': ops}
     if vu:
         c['vu'] = vu
@@ -656,7 +656,7 @@ def generate(rng, tier):
 
 def classify(c):
     if c['op'] == 'seq':
-        q = 'session' if any(o['k'] in ('integrate', 'bin', 'setvalue', 'to') for o in c['ops']) else 'seq'
+        q = 'session' if any(o['k'] in ('integrate', 'bin', 'setvalue', 'to', 'asarray') for o in c['ops']) else 'seq'
         return f'{q}<=4' if len(c['ops']) <= 4 else f'{q}<=8' if len(c['ops']) <= 8 else f'{q}>8'
     if c['op'] == 'bin':
         return f"bin/{c['rule']}/{c['ends']}/{'pp' if c['pp'] else 'raw'}"
@@ -716,7 +716,9 @@ def enc_op(o):
             em = [0] + C.enc_q(F(m[1])) + C.enc_q(F(m[2]))
         return [3] + C.enc_q(F(o['e0'])) + C.enc_q(F(o['e1'])) + C.enc_opt(None if o['samp'] is None else F(o['samp']), C.enc_q) + em
     if k == 'append':
-        return [4] + enc_lq(o['w']) + enc_lq(o['v'])
+        return [9 if o.get('copy') else 4] + enc_lq(o['w']) + enc_lq(o['v'])
+    if k == 'asarray':
+        return [10]
     if k == 'resample':
         return [5] + enc_lq(o['g'])
     if k == 'integrate':
@@ -780,6 +782,8 @@ def decode(c, ints):
             elif t == 2:
                 st['ans'] = rd.opt(lambda: rd.lst(rd.q))
                 st['bins'] = True
+            elif t == 3:
+                st['spec'] = {'w': rd.lst(rd.q), 'v': rd.lst(rd.q)}
             alt = rd.z()
             st['alt'] = C.ERRNAMES[alt] if alt else None
             return st
@@ -982,6 +986,9 @@ def run_impl_raw(c):
                 try:
                     if o['k'] in ('integrate', 'bin'):
                         ans = query(s, o)
+                    elif o['k'] == 'asarray':
+                        r = np.asarray(s.asarray())
+                        ret = {'w': [float(x) / 2.0 ** _CTX['ws'] for x in r[0]], 'v': [float(x) / 2.0 ** _CTX['vs'] for x in r[1]]}
                     else:
                         r = call_op(s, o, dt)
                         if o['k'] == 'append' and o.get('copy'):
@@ -1094,18 +1101,6 @@ def compare(c, impl, model):
         for k, (a, b) in enumerate(zip(impl['steps'], model['steps'])):
             o = c['ops'][k]
             name = o['k']
-            is_copy = name == 'append' and o.get('copy')
-            if is_copy:
-                # the model's outcome is what the copy must look like; the object itself must not move
-                if (a['err'] or None) != b['err']:
-                    return f'step {k} (append copy): exception {a["err"]} vs model {b["err"]}'
-                if a.get('ret') is not None:
-                    m = cmp_list(a['ret']['w'], b['w'], f'step {k} append(copy) wave', sync) or \
-                        cmp_list(a['ret']['v'], b['v'], f'step {k} append(copy) value', sync)
-                    if m:
-                        return m
-                # the model state for the following steps must be the unchanged one: handled by the encoder
-                return 'internal: append(copy) must be the last call of a sequence' if k != len(impl['steps']) - 1 else None
             pre = model['steps'][k - 1] if k else {'w': [F(x) for x in c['w']], 'v': [F(x) for x in c['v']]}
             if not sync and name in ('crop', 'trim', 'pad', 'append', 'resample') and \
                     ((a['err'] or None) != b['err'] or len(a['w']) != len(b['w']) or len(a['v']) != len(b['v'])):
@@ -1117,6 +1112,14 @@ def compare(c, impl, model):
             m = cmp_list(a['w'], b['w'], f'step {k} ({name}) wave', ex) or cmp_list(a['v'], b['v'], f'step {k} ({name}) value', ex)
             if m:
                 return m
+            if 'spec' in b and not a['err']:
+                # append(copy=True) / asarray(): the returned table against the model's
+                if a.get('ret') is None:
+                    return f'step {k} ({name}): nothing returned'
+                m = cmp_list(a['ret']['w'], b['spec']['w'], f'step {k} ({name}) returned wave', ex) or \
+                    cmp_list(a['ret']['v'], b['spec']['v'], f'step {k} ({name}) returned value', ex)
+                if m:
+                    return m
             if name == 'integrate' and not a['err']:
                 q = b['ans']
                 if sync and o['rule'] == 'trapz' and exact_q(q):
@@ -1320,6 +1323,13 @@ def oracle_seq(c, impl):
             return f'{tag}: wavelength grid not strictly increasing'
         if any(x <= 0 for x in w):
             return f'{tag}: non-positive wavelength'
+        if name == 'asarray':
+            r = st.get('ret')
+            if (w, v) != (pw, pv):
+                return f'{tag}: asarray modified the spectrum'
+            if err or r is None or (fx(r['w']), fx(r['v'])) != (pw, pv):
+                return f'{tag}: asarray does not return the current (wave, value)'
+            continue
         if name in ('integrate', 'bin'):
             if (w, v) != (pw, pv):
                 return f'{tag}: the query modified the spectrum'
